@@ -61,7 +61,7 @@ Inductive lop :=
 | LChkArgs (i p : Z)   (* ovni_add_cpu: negative index/phyid: die *)
 | LChkReady            (* if (!rthread.ready) die *)
 | LChkLive             (* get_thread_metadata: finished: die; !ready: die *)
-| LReset (tid : Z)     (* memset(&rthread,0); tid; evbuf = malloc *)
+| LReset               (* memset(&rthread,0); evbuf = malloc (the new tid takes effect with FsCreate) *)
 | LMetaInit            (* json_value_init_object + the thread-local part of populate *)
 | LSetReady
 | LRequire (m v : Z)
@@ -75,7 +75,7 @@ Inductive lop :=
 
 (* operations on the thread's own directory *)
 Inductive fsop :=
-| FsCreate             (* mkdir thread.<tid>, open stream.obs, write header *)
+| FsCreate (tid : Z)   (* rthread.tid = tid; mkdir thread.<tid>, open stream.obs, write header *)
 | FsAppend             (* flush_evbuf: write(evbuf, evlen); evlen = 0 *)
 | FsStoreMeta.         (* json_serialize_to_file_pretty(rthread.meta) *)
 
@@ -100,9 +100,9 @@ Definition expand (mv : bool) (c : call) : list action :=
   | ProcFini =>
       [ACasFini; ARead Fmove] ++ (if mv then [ARead Fprocdir; ARead Floomdir; ARead Ftmpdir] else [])
   | ThreadInit tid =>
-      [ALocal (LChkInit tid); ALoadReady; ALocal (LReset tid); ARead Fprocdir; ARead Fmove]
+      [ALocal (LChkInit tid); ALoadReady; ALocal LReset; ARead Fprocdir; ARead Fmove]
       ++ (if mv then [ARead Fprocdir_final] else [])
-      ++ [ARead Fprocdir; AFs FsCreate; ALocal LMetaInit; ARead Fpid; ARead Floom; ARead Fapp;
+      ++ [ARead Fprocdir; AFs (FsCreate tid); ALocal LMetaInit; ARead Fpid; ARead Floom; ARead Fapp;
           ARead Fprocdir; AFs FsStoreMeta; ALocal LSetReady; ALocal (LRequire REQ_OVNI REQ_OVNI)]
   | Require m v => [ALocal LChkReady; ALocal (LRequire m v)]
   | AddCpu i p => [ALocal (LChkArgs i p); ALoadReady; ALocal LChkReady; ALocal (LAddCpu i p)]
@@ -156,7 +156,7 @@ Definition local_exec (l : lop) (t : thr) : lres :=
   | LChkArgs i p => if (i <? 0) || (p <? 0) then LDie else LOk t
   | LChkReady => if t_ready t then LOk t else LDie
   | LChkLive => if t_fin t then LDie else if t_ready t then LOk t else LDie
-  | LReset tid => upd false false tid [] [] [] None
+  | LReset => upd false false (t_tid t) [] [] [] None
   | LMetaInit => upd (t_ready t) (t_fin t) (t_tid t) (t_buf t) [] (t_cpus t) (t_rank t)
   | LSetReady => upd true (t_fin t) (t_tid t) (t_buf t) (t_meta t) (t_cpus t) (t_rank t)
   | LRequire m v => upd (t_ready t) (t_fin t) (t_tid t) (t_buf t) (t_meta t ++ [MReq m v]) (t_cpus t) (t_rank t)
@@ -178,7 +178,11 @@ Definition local_exec (l : lop) (t : thr) : lres :=
    (open() without O_TRUNC and two file offsets); it is excluded by the distinct-TID hypothesis. *)
 Definition fs_exec (o : fsop) (t : thr) (fl : option file) : option file * thr :=
   match o with
-  | FsCreate => (Some (mkFile [IHeader] None), t)
+  | FsCreate z =>
+      (* z = 0 never gets here: LChkInit refuses it first *)
+      if z =? 0 then (fl, t) else
+      (Some (mkFile [IHeader] None),
+       mkThr (t_todo t) (t_cur t) (t_dead t) (t_ready t) (t_fin t) z (t_buf t) (t_meta t) (t_cpus t) (t_rank t) (t_seen t) (t_out t))
   | FsAppend =>
       (match fl with Some f => Some (mkFile (f_obs f ++ t_buf t) (f_meta f)) | None => None end,
        mkThr (t_todo t) (t_cur t) (t_dead t) (t_ready t) (t_fin t) (t_tid t) [] (t_meta t) (t_cpus t) (t_rank t) (t_seen t) (t_out t))
@@ -268,7 +272,7 @@ Definition step (mv : bool) (c : config) (i : nat) : option config :=
     | Some r =>
       Some (mkCfg (r_st r)
                   (match r_ev r with EvW w f => (f, w) :: c_fields c | _ => c_fields c end)
-                  (match r_file r with Some fl' => fs_put (t_tid t) fl' (c_fs c) | None => c_fs c end)
+                  (match r_file r with Some fl' => fs_put (t_tid (r_thr r)) fl' (c_fs c) | None => c_fs c end)
                   (set_nth i (r_thr r) (c_thr c))
                   (r_ev r :: c_trace c))
     end
